@@ -243,6 +243,34 @@ func (e *Exec) decDigits(u *Term) []*Term {
 	return out
 }
 
+// paddedDigits renders u with exactly W digits (zero padded) without forking
+// on the digit count; the caller has established u < 10^W on this path.
+func (e *Exec) paddedDigits(u *Term, W int) []*Term {
+	c := e.ctx
+	out := make([]*Term, W)
+	for k := 0; k < W; k++ {
+		q := u
+		if k > 0 {
+			q = c.Bin(OUDiv, u, c.Const(u.w, pow10[k]))
+		}
+		d := c.Bin(OURem, q, c.Const(q.w, 10))
+		var d8 *Term
+		if d.w < 8 {
+			d8 = c.ZExt(d, 8)
+		} else {
+			d8 = c.Extract(d, 7, 0)
+		}
+		ch := c.Bin(OAdd, d8, c.Const(8, '0'))
+		if !ch.IsConst() {
+			if _, ok := c.digit[ch]; !ok {
+				c.digit[ch] = DigitInfo{v: u, k: k, n: W}
+			}
+		}
+		out[W-1-k] = ch
+	}
+	return out
+}
+
 // signedDigits returns (negative?, digits of |v|) for a signed term, forking on sign.
 func (e *Exec) signedDigits(v *Term) (bool, []*Term) {
 	c := e.ctx
@@ -529,10 +557,41 @@ func (e *Exec) fmtArg(caller *Frame, sp fmtSpec, arg IfaceV) ([]*Term, bool) {
 			signed := isSignedBasic(u)
 			neg := false
 			var ds []*Term
-			if signed {
-				neg, ds = e.signedDigits(v)
+			// zero padding to a fixed number of digits: no fork on the digit count
+			padW := 0
+			if sp.hasPrec {
+				padW = sp.prec
+			} else if sp.zero && sp.hasWidth {
+				padW = sp.width
+			}
+			mag := v
+			if signed && !v.IsConst() {
+				if e.Branch(c.Cmp(OSlt, v, c.Const(v.w, 0))) {
+					neg = true
+					mag = c.Neg(v)
+					if !sp.hasPrec {
+						padW--
+					}
+				}
+			} else if signed && v.IsConst() && sext64(v.c, v.w) < 0 {
+				neg = true
+				mag = c.Neg(v)
+				if !sp.hasPrec {
+					padW--
+				}
+			}
+			usePad := false
+			if padW >= 1 && padW <= 19 && !mag.IsConst() {
+				if pow10[padW] > mask(mag.w) || pow10[padW] > mag.ub {
+					usePad = true // always fits
+				} else {
+					usePad = e.Branch(c.Cmp(OUlt, mag, c.Const(mag.w, pow10[padW])))
+				}
+			}
+			if usePad {
+				ds = e.paddedDigits(mag, padW)
 			} else {
-				ds = e.decDigits(v)
+				ds = e.decDigits(mag)
 			}
 			// precision: minimum digits
 			if sp.hasPrec {
